@@ -206,7 +206,7 @@ spif_mbuff_init_from_fp(spif_mbuff_t self, FILE *fp)
         self->len = 0;
         self->buff = (spif_byteptr_t) MALLOC(self->size);
 
-        for (p = self->buff; (cnt = fread(p, 1, buff_inc, fp)) > 0; p += buff_inc) {
+        for (p = self->buff; (cnt = fread(p, 1, buff_inc, fp)) > 0; p = self->buff + self->len) {
             self->len += cnt;
             if (feof(fp)) {
                 break;
